@@ -150,7 +150,7 @@ Proof.
     unfold reader_steps in Hst; cbn in Hst. destruct r as [k|k|k|].
     + rewrite in_app_iff in Hst. destruct Hst as [Hst|Hst].
       * dif Hst; destruct Hst as [<-|[]]; unfold Inv; cbn; repeat split; auto.
-      * destruct Hst as [<-|[]]; unfold Inv; cbn; repeat split; auto.
+      * destruct k as [|k']; [destruct Hst|]. destruct Hst as [<-|[]]; unfold Inv; cbn; repeat split; auto.
     + destruct (push_first c (k =? 0)) as [c'|] eqn:Hp; [|destruct Hst]. destruct Hst as [<-|[]].
       unfold push_first in Hp. destruct (cvs c) as [|v rest] eqn:Hv; [discriminate|].
       destruct (length (vin v) <? reader_cap); [|discriminate]. inversion Hp; subst c'. unfold Inv; cbn.
